@@ -186,7 +186,9 @@ func (ip *Inode) Resize(atxn *alloctxn.AllocTxn, sz uint64) bool {
 	ip.WriteInode(atxn)
 	if newSz < oldsz {
 		if ip.shrinkFits(atxn, oldsz-newSz) {
-			ip.Shrink(atxn)
+			// Shrink keeps a margin of its own and may stop early; then the
+			// shrinker must finish the job.
+			doshrink = ip.Shrink(atxn)
 			util.DPrintf(1, "small file delete inside trans\n")
 		} else {
 			doshrink = true
